@@ -53,7 +53,6 @@ import EPV.Lemmas.SedovEnergyBand
 import EPV.Lemmas.SedovInit
 import EPV.Gen.SedovQuad
 import EPV.Lemmas.Bridge.SemiSedovInit
-import EPV.Lemmas.Bridge.SemiSedovQuad
 import EPV.Spec.Sedov
 
 set_option linter.all false
